@@ -82,10 +82,42 @@ def cross_type_events(env, rng, thorough):
     return events
 
 
+def reused_symbol_events(rng, thorough):
+    """A history of registrations: an application registers its own quantity type whose unit reuses a symbol of the table.  Either the
+    registration is refused, or the two quantity types still cannot be added / subtracted / ordered."""
+    from barril.units import Array, Scalar, UnitDatabase
+    from . import export
+
+    db = export.build_db("default")
+    UnitDatabase.PushSingleton(db)
+    events = []
+    refused = 0
+    try:
+        syms = [(qt, i.unit) for qt, infos in db.quantity_types.items() for i in infos if qt not in ("dimensionless", "Unknown") and db.GetDefaultCategory(i.unit)]
+        for k, (qt, sym) in enumerate(syms if thorough else rng.sample(syms, 40)):
+            new = "verif type %d" % k
+            o = P.outcome(lambda: (db.AddUnitBase(new, "verif unit", sym), db.AddCategory(new, new)))
+            if o[0] != "ok":
+                refused += 1
+                continue
+            cat = db.GetDefaultCategory(sym)
+            for name, fn in (("Scalar+Scalar", lambda: Scalar(2.0, sym, cat) + Scalar(3.0, sym, new)), ("Scalar-Scalar", lambda: Scalar(3.0, sym, new) - Scalar(2.0, sym, cat)),
+                             ("Array+Array", lambda: Array(cat, [1.0], sym) + Array(new, [2.0], sym)), ("Scalar<Scalar", lambda: Scalar(2.0, sym, cat) < Scalar(3.0, sym, new))):
+                o2 = P.outcome(fn)
+                events.append({"op": "Reject", "call": name + " after a symbol of the table was registered again for a new quantity type", "from": [qt, sym], "to": [new, sym],
+                               "family": "ok" if o2[0] == "ok" else o2[1], "cls": "" if o2[0] == "ok" else o2[2], "reg_pre": "", "reg_post": "", "ops_pre": "", "ops_post": ""})
+    finally:
+        UnitDatabase.PopSingleton()
+    return events, refused
+
+
 def main(tier):
     rep, bd, env, stats = qalg.run("C05", tier, "fail", "")
     rng = random.Random(common.seed() + 5)
     events = cross_type_events(env, rng, tier == "thorough")
+    more, refused = reused_symbol_events(rng, tier == "thorough")
+    rep.cov["registrations_reusing_a_symbol_refused"] = refused
+    events += more
     common.judge_trace(rep, bd, events, "incompatible calls across quantity types on the real default database",
                        key_of=lambda ev: {"check": "cross-type " + ev["call"], "from": ev["from"][0], "to": ev["to"][0]})
     # later valid operations behave as if the failures had not happened: the model machine is re-run after the sweep
